@@ -61,6 +61,7 @@ Extraction "model.ml"
   acc_ra_merge
   acc_outdegree
   acc_iter_from
+  acc_iter_from_ring
   acc_offdeg
   acc_offdeg_from
   acc_next_successors
